@@ -162,6 +162,92 @@ def rich_pool(rng):
     return atoms
 
 
+def leaf_family():
+    """Every probability leaf over A, B, C: 1-2 children, 0-2 parents, optional +/- marks, 0-2 intervention subscripts with either
+    mark carried by all variables (prints as P[..](..)) or by the first child only (prints with @), with and without a population."""
+    import itertools as itt
+    dsl = concrete.y0mod("y0.dsl")
+    names = ["A", "B", "C"]
+    out = []
+    ivsets = [()]
+    for k in (1, 2):
+        for sub in itt.combinations(names, k):
+            for stars in itt.product([False, True], repeat=k):
+                t = tuple(dsl.Intervention(name=n, star=s) for n, s in zip(sub, stars))
+                ivsets.append(t)
+                if k == 2:
+                    ivsets.append(t[::-1])      # the other insertion order of the same frozenset
+    for nc in (1, 2):
+        for ch in itt.combinations(names, nc):
+            rest = [n for n in names if n not in ch]
+            for npa in range(0, len(rest) + 1):
+                for pa in itt.combinations(rest, npa):
+                    for mark in (None, 0, 1, 2):        # which variable (if any) carries a +/- mark, alternating the sign
+                        allv = list(ch) + list(pa)
+                        if mark is not None and mark >= len(allv):
+                            continue
+                        for ivs in ivsets:
+                            for mode in (("all", "first") if ivs else ("none",)):
+                                def mk(n, pos, with_ivs):
+                                    # built with the public operators only: +v / -v for value marks, v @ subscripts for interventions
+                                    v = dsl.Variable(n)
+                                    if mark == pos:
+                                        v = +v if (pos + len(ivs)) % 2 else -v
+                                    return v @ ivs if with_ivs else v
+                                try:
+                                    cvs = tuple(mk(n, i, mode == "all" or (mode == "first" and i == 0)) for i, n in enumerate(ch))
+                                    pvs = tuple(mk(n, len(ch) + i, mode == "all") for i, n in enumerate(pa))
+                                    d = dsl.Distribution(children=cvs, parents=pvs)
+                                except (ValueError, TypeError):
+                                    continue
+                                out.append(dsl.Probability(d))
+                                out.append(dsl.PopulationProbability(population=dsl.Population("Pi1"), distribution=d))
+    return out
+
+
+LEAF_SNIPPET = r"""
+import sys
+sys.path.insert(0, sys.argv[2]); sys.path.insert(0, sys.argv[1])
+from props import C12
+from y0.parser import parse_y0
+bad = []
+for e in C12.leaf_family():
+    t = e.to_y0()
+    try:
+        b = parse_y0(t)
+    except Exception as ex:
+        bad.append(f"parse_y0({t!r}) raised {type(ex).__name__}"); continue
+    if b != e:
+        bad.append(f"parse_y0({t!r}) is not equal to the original object")
+    elif b.to_y0() != t:
+        bad.append(f"{t!r} parses to an equal object that re-prints as {b.to_y0()!r}")
+print(len(bad))
+for x in bad[:3]:
+    print(x)
+"""
+
+
+def leaf_hash_seed_part():
+    """The leaf family again in fresh interpreters under other hash seeds (subscripts are frozensets: printing must not depend on
+    their iteration order)."""
+    import os
+    import subprocess
+    import sys
+    from pathlib import Path
+    from y0vc.extract import SRC
+    here = str(Path(__file__).resolve().parent.parent)
+    out = []
+    for hs in ("0", "3", "12345"):
+        p = subprocess.run([sys.executable, "-c", LEAF_SNIPPET, str(SRC), here], capture_output=True, text=True,
+                           env={**os.environ, "PYTHONHASHSEED": hs}, timeout=900)
+        lines = p.stdout.splitlines()
+        if p.returncode != 0 or not lines:
+            raise RuntimeError(f"leaf pass under PYTHONHASHSEED={hs} failed: {p.stderr[-400:]}")
+        if int(lines[0]):
+            out.append((hs, lines[1]))
+    return out
+
+
 def gen_expr(rng, atoms, depth, allow_div=True):
     dsl = concrete.y0mod("y0.dsl")
     if depth == 0 or rng.random() < 0.25:
@@ -247,11 +333,12 @@ def extra(rep, repo, registry, known_open):
         rep.violations.append(("y0.dsl.to_y0/printer.precedence", path, ""))
     # part B
     rng = random.Random(repr((rep.seed, "C12")))
-    atoms = rich_pool(rng)
+    leaves = leaf_family()
+    atoms = rich_pool(rng) + rng.sample(leaves, 40)
     N = 1500 if rep.tier == "quick" else 40000
     fails, seen, nun = [], set(), 0
-    for _ in range(N):
-        e = gen_expr(rng, atoms, rng.randint(0, 3))
+    for j in range(N + len(leaves)):
+        e = leaves[j] if j < len(leaves) else gen_expr(rng, atoms, rng.randint(0, 3))
         seen.add(str(e))
         nun += unnested(e)
         blob = base64.b64encode(pickle.dumps(e)).decode()
@@ -260,10 +347,20 @@ def extra(rep, repo, registry, known_open):
             fails.append((str(e), why, blob))
             if len(fails) >= 3:
                 break
-    rep.extra_parts.append({"name": "parse-print-roundtrip", "kind": "bounded", "decides": True, "evaluations": N, "distinct": len(seen), "unnested_family": nun,
-                            "scope": "sampled expressions of depth <= 3 built with the DSL operators over plain / conditional / interventional / population-tagged "
+    rep.extra_parts.append({"name": "parse-print-roundtrip", "kind": "bounded", "decides": True, "evaluations": N + len(leaves), "distinct": len(seen), "unnested_family": nun,
+                            "scope": f"every probability leaf over A, B, C ({len(leaves)}: 1-2 children, 0-2 parents, +/- marks, 0-2 subscripts carried by all variables or by the "
+                                     "first child only, with and without a population) and sampled expressions of depth <= 3 built with the DSL operators over plain / conditional / interventional / population-tagged "
                                      "probabilities, Q factors, One, Zero; exact evaluation; object equality and text fix-point on the un-nested family",
                             "failures": len(fails), "wall_s": round(time.time() - t0, 1)})
+    hs_fails = leaf_hash_seed_part()
+    rep.extra_parts.append({"name": "leaf-roundtrip-under-hash-seeds", "kind": "bounded", "decides": True, "evaluations": 3 * len(leaves),
+                            "scope": "the leaf family in fresh interpreters under PYTHONHASHSEED = 0, 3, 12345: parse succeeds, equal object, same text",
+                            "failures": len(hs_fails)})
+    if hs_fails and not fails:
+        hs, why = hs_fails[0]
+        path = pipeline.write_replay("C12", "bounded.roundtrip", {"property": "C12", "obligation": "y0.parser.internal.parse_y0/bounded.roundtrip",
+                                                                  "expression": why, "why": f"PYTHONHASHSEED={hs}: {why}", "hash_seed": hs})
+        rep.violations.append(("y0.parser.internal.parse_y0/bounded.roundtrip", path, ""))
     if fails:
         s, why, blob = min(fails, key=lambda f: len(f[0]))
         path = pipeline.write_replay("C12", "bounded.roundtrip", {"property": "C12", "obligation": "y0.parser.internal.parse_y0/bounded.roundtrip",
@@ -279,6 +376,13 @@ def replay(payload, path):
         n, bad, first = part_a(R)
         print(json.dumps({"obligations": n, "failed": bad, "first": first}))
         if bad:
+            print(f"VIOLATION property=C12 replay={path}")
+            return 1
+        return 0
+    if payload.get("hash_seed"):
+        now = leaf_hash_seed_part()
+        print(json.dumps({"recorded": payload["why"], "now": now}))
+        if now:
             print(f"VIOLATION property=C12 replay={path}")
             return 1
         return 0
